@@ -296,6 +296,15 @@ func (q qiDecoder) mapValue(v reflect.Value) error {
 func (q qiDecoder) value(v reflect.Value) error {
 	switch v.Kind() {
 	case reflect.Interface:
+		if v.IsNil() && v.CanSet() {
+			// an empty interface field (i.e. value.Value)
+			el, err := q.readValue(v.Type())
+			if err != nil {
+				return err
+			}
+			v.Set(el)
+			return nil
+		}
 		i := v.Interface()
 		b, ok := i.(BinaryDecoder)
 		if ok {
@@ -342,7 +351,9 @@ func (q qiDecoder) value(v reflect.Value) error {
 			// costly (run "go test -bench=ReadStruct" and compare
 			// results when making changes to this code).
 			if v := v.Field(i); v.CanSet() || t.Field(i).Name != "_" {
-				q.value(v)
+				if err := q.value(v); err != nil {
+					return err
+				}
 			}
 		}
 	case reflect.Slice:
